@@ -1451,27 +1451,34 @@ func (c *Conn) readStream(fr *FrameHeader, res *fasthttp.Response) (err error) {
 		err = NewResetStreamError(
 			fr.Body().(*RstStream).Code(), "stream reset by the server")
 	case FrameData:
-		c.currentWindow -= int32(fr.Len())
-		currentWin := c.currentWindow
-
 		data := fr.Body().(*Data)
 		if data.Len() != 0 {
 			res.AppendBody(data.Data())
+		}
 
-			// let's send the window update
+		// The whole frame counts against the stream window, padding included,
+		// so a frame that carries nothing but padding is handed back as well.
+		if fr.Len() != 0 {
 			c.updateWindow(fr.Stream(), fr.Len())
 		}
 
-		if currentWin < c.maxWindow/2 {
-			nValue := c.maxWindow - currentWin
-
-			c.currentWindow = c.maxWindow
-
-			c.updateWindow(0, int(nValue))
-		}
+		c.consumeConnWindow(fr.Len())
 	}
 
 	return err
+}
+
+// consumeConnWindow accounts for n octets of DATA against the connection
+// window and tops it up once it is half used.
+func (c *Conn) consumeConnWindow(n int) {
+	c.currentWindow -= int32(n)
+	if c.currentWindow < c.maxWindow/2 {
+		nValue := c.maxWindow - c.currentWindow
+
+		c.currentWindow = c.maxWindow
+
+		c.updateWindow(0, int(nValue))
+	}
 }
 
 func (c *Conn) updateWindow(streamID uint32, size int) {
